@@ -14,7 +14,7 @@ def G(name, instances, models, shadow=False, **cxx):
 BASE = ['c05_str.c', 'c05_list.c', 'models.c']
 CUT = BASE + ['c05_cut.c']
 Q = ('quick', 'thorough'); T = ('thorough',)
-QUICK_CHOOSE = {(0, 0), (1, 2), (2, 2), (3, 2)}
+QUICK_CHOOSE = {(0, 0), (1, 2), (3, 2)}
 MEM = {0: 2.5, 1: 3.5, 2: 4.5, 3: 5.5}
 def od(o, d): return {'C05_NOFF': o, 'C05_NDIS': d}
 def choose(o, d):
@@ -38,7 +38,8 @@ SPEC = dict(
         G('tostring', [I('tostring', 'h_tostring', unwind=4, mem_gb=4, bound='the 10 non-HT mechanism rows of the table, symbolic row index')], ['qt_core.c', 'qt_list.c', 'models.c']),
         # composition check without the cut: real parser inside the real choice
         G('e2e', [I('e2e_o1_d1', 'h_choose', cdefs=od(1, 1), mem_gb=4, bound='uncut, offer list of exactly 1 name, 1 disabled name'),
-                  I('e2e_o2_d2', 'h_choose', cdefs=od(2, 2), tiers=T, mem_gb=14, timeout_s=1500, object_bits=12, bound='uncut, offer list of exactly 2 names, 2 disabled names'),
+                  I('e2e_o2_d2', 'h_choose', cdefs=od(2, 2), tiers=T, mem_gb=6, timeout_s=900, object_bits=12, bound='uncut, offer list of exactly 2 names, 2 disabled names'),
+                  I('e2e_o3_d2', 'h_choose', cdefs=od(3, 2), tiers=T, mem_gb=7, timeout_s=1500, object_bits=12, bound='uncut, offer list of exactly 3 names, 2 disabled names'),
                   I('alias_bypass', 'h_alias_bypass', cdefs=od(1, 1), mem_gb=2.5, bound='concrete: offer ["HT-SHA-256SHA-384-NONE"], disabled ["HT-SHA-384-NONE"], token HT-SHA-384-NONE')],
           BASE),
     ],
@@ -49,11 +50,11 @@ SPEC = dict(
         'preferred mechanism: none or any table row',
         'credentials: password present/absent, facebook token and app id, windows-live token, google token each present/absent, HT token absent or bound to any of the 28 HT mechanisms',
         'SASL 2 mismatch instances: the last offered name arrives inside <fast/>; server-offers-fast / FAST enabled / user agent set are constants of the instance (5 of the 8 combinations)',
-        'end-to-end (uncut) composition: 1 offered name + 1 disabled name in quick, 2 + 2 in thorough',
+        'end-to-end (uncut) composition: 1 offered name + 1 disabled name in quick; 2 + 2 and 3 + 2 in thorough',
         'strings are at most 24 UTF-16 units (longest table name 22)',
     ],
     assumptions=[
-        'ASSUME-GUARANTEE CUT (groups choose_cut): SaslMechanism::fromString is replaced by its specification on table names (c05_cut.c); the specification is exactly what instance parse_table proves for the REAL function on every table row; the cut refuses any argument that is not one whole table name; instances e2e_* run the real parser inside the real choice without the cut',
+        'ASSUME-GUARANTEE CUT (groups choose_cut): SaslMechanism::fromString is replaced by its specification on table names (c05_cut.c); the specification is exactly what instance parse_table proves for the REAL function on every table row; the cut refuses any argument that is not one whole table name; instances e2e_* run the real parser inside the real choice WITHOUT the cut (1 offer + 1 disabled in quick; 2+2 and the full bound 3+2 in thorough)',
         'std::views::filter/transform: clang-14 cannot compile libstdc++-12 <ranges>; c05_ranges.h is an EAGER stand-in (each element of the container is pushed once, in order, through the stages; begin()/end() are pointers into a buffer of <= 6 results). Equivalent to the lazy views for the sequence of values as long as predicates do not depend on how often they run (isEnabled only collects names for the log text)',
         'class-level container models (Qt / libstdc++ inline code replaced by contract): QList<QString> default constructor, append, node_destruct (all string data static, asserted); std::__find_if over const QString* (QList::contains); std::allocator<SaslMechanism>::allocate and _Vector_base::_M_allocate with fixed capacity 6 (asserted)',
         'string boundary (c05_str.c): QString::operator=, operator==, QtPrivate::startsWith/compareStrings/equalStrings as straight-line kernels over <= 24 units (asserted); QString::arg / QStringList join (log and error TEXT) are identity / empty',
